@@ -15,8 +15,9 @@ focus=None emits only the operations named in C04 (no iterators, no mk_*, no sor
 "iter" adds iterator programs, "derived" mk_* with follow-up operations on both lists, "sort" sort*,
 "reject" boundary/absent arguments, "growth" append-dominated, "fault" allocating operations (no
 fail=), "all" everything, "refuse" = "all" plus random `fail=k` (used by the builders' own runs).
-Iterator programs respect the documented contract: mutators only after a successful next, at most
-one structural change per yielded element.
+Iterator programs respect the documented contract: mutators only after a successful next (`add` only while the
+yielded element has not been removed); any number of `add`s may follow one next (defect L6), optionally closed
+by a `remove`.
 """
 import itertools, random
 
@@ -517,24 +518,37 @@ class LinkedGen:
                 pos += 1
             else:
                 pos -= 1
-            if rng.random() < 0.35:
-                out.append(f"{kind}_replace {val(rng)}")
+            # after one yield: any number of replace / add / index calls (the contract of `add` is only "an element
+            # was yielded and not removed since" -- repeated adds behind one yielded element are defect L6's trigger),
+            # optionally closed by a remove (which may be followed by inert probes only)
+            n_mut = 0
             if rng.random() < p_mut:
-                if rng.random() < 0.5:
+                n_mut = rng.choice([1, 1, 1, 2, 2, 3, 4])
+            if rng.random() < 0.35:
+                v = val(rng); l[cur] = v
+                out.append(f"{kind}_replace {v}")
+            for mi in range(n_mut):
+                last_one = mi == n_mut - 1
+                if last_one and rng.random() < (0.5 if n_mut == 1 else 0.3):
                     out.append(f"{kind}_remove")
                     del l[cur]
                     if kind == "it":
                         pos -= 1
                     if rng.random() < 0.2:
                         out.append(rng.choice([f"{kind}_remove", f"{kind}_replace {val(rng)}"]))   # inert probes
+                    break
+                v = val(rng)
+                out.append(f"{kind}_add {v}")
+                if kind == "it":
+                    l.insert(cur + 1, v)
+                    pos += 1
+                    if not self.dbl:
+                        cur += 1              # cc_slist_iter_add: the new element becomes the current one
                 else:
-                    v = val(rng)
-                    out.append(f"{kind}_add {v}")
-                    if kind == "it":
-                        l.insert(cur + 1, v)
-                        pos += 1
-                    else:
-                        l.insert(cur, v)
+                    l.insert(cur, v)          # cc_list_diter_add: in front of `last`, the new node becomes `last`
+                if rng.random() < 0.25:
+                    v = val(rng); l[cur] = v
+                    out.append(f"{kind}_replace {v}")
                 if rng.random() < 0.3:
                     out.append(f"{kind}_index")
         return out
@@ -558,19 +572,27 @@ class LinkedGen:
             if rng.random() < 0.3:
                 out.append("zit_index")
             if rng.random() < 0.3:
-                out.append(f"zit_replace {val(rng)} {val(rng)}")
+                v, w = val(rng), val(rng); la[cur] = v; lb[cur] = w
+                out.append(f"zit_replace {v} {w}")
             r = rng.random()
-            if r < 0.3:
-                out.append("zit_remove")
-                del la[cur]
-                del lb[cur]
-                pos -= 1
-            elif r < 0.6:
+            n_mut = 0 if r >= 0.6 else rng.choice([1, 1, 1, 2, 2, 3])
+            for mi in range(n_mut):
+                if mi == n_mut - 1 and rng.random() < (0.5 if n_mut == 1 else 0.3):
+                    out.append("zit_remove")
+                    del la[cur]
+                    del lb[cur]
+                    pos -= 1
+                    break
                 v, w = val(rng), val(rng)
                 out.append(f"zit_add {v} {w}")
                 la.insert(cur + 1, v)
                 lb.insert(cur + 1, w)
                 pos += 1
+                if not self.dbl:
+                    cur += 1
+                if rng.random() < 0.2:
+                    v, w = val(rng), val(rng); la[cur] = v; lb[cur] = w
+                    out.append(f"zit_replace {v} {w}")
         return out
 
     def derived_op(self, rng, sim, k):
@@ -983,6 +1005,12 @@ class LinkedGen:
                 for s in singles:
                     out.append(base + [s, "destroy"])
                 out.append(base + ["destroy_cb"])
+            # (a1) filter_mut on every keep/drop pattern up to length 6 (runs of removals at the head, in the middle and at the
+            # tail: the singly linked loop's trailing `prev` must not advance over an unlinked node), then end operations
+            for n in range(1, 7):
+                for pat in itertools.product((0, 1), repeat=n):
+                    vals = [2 * (i + 1) + b for i, b in enumerate(pat)]      # b = 1: odd, dropped by pred_even
+                    out.append(build(vals) + ["filter_mut", "add 7", "remove_last", "remove_first", "get_last", "destroy"])
             # (a2) elements that differ by exactly 2^31 / 2^32 / 2^63 and values next to 2^64-1: value-based operations must
             # tell them apart (first occurrence from the head only)
             big = [5, 5 + 2**32, 5 + 2**63, 5 + 2**31, SIZE_MAX, SIZE_MAX - 5, 5]
@@ -1071,18 +1099,25 @@ class LinkedGen:
                     base = build([5, 6, 7][:n])
                     for ln in range(1, L + 1):
                         for prog in itertools.product(["next", "remove", "add 9", "replace 8", "index"], repeat=ln):
-                            # contract: structural mutators only directly after a next (the shims refuse the rest anyway)
+                            # contract: `add` only with a current element -- after a next, not after a remove (the shims
+                            # refuse the rest anyway); several adds behind one yielded element are legal (defect L6)
                             ok = True
-                            changed = True
+                            cur = False
                             for p in prog:
                                 if p == "next":
-                                    changed = False
-                                elif p.startswith("add") or p == "remove":
-                                    if changed and p.startswith("add"):
-                                        ok = False
-                                    changed = True
+                                    cur = True
+                                elif p == "remove":
+                                    cur = False
+                                elif p.startswith("add") and not cur:
+                                    ok = False
                             if not ok:
                                 continue
+                            na = 0
+                            prog = list(prog)
+                            for i, p in enumerate(prog):      # distinct values, so that the order of the added nodes shows
+                                if p.startswith("add"):
+                                    prog[i] = f"add {9 + 10 * na}"
+                                    na += 1
                             out.append(base + [f"{kind}_new"] + [f"{kind}_{p}" for p in prog] + ["get_last", "destroy"])
             for na in range(0, 3):
                 for nb in range(0, 3):
@@ -1094,7 +1129,9 @@ class LinkedGen:
             for c0, c1 in (("new_default", "new"), ("new", "new_default")):
                 for prog in (["zit_next", "zit_add 7 8", "zit_next", "zit_remove", "zit_next", "zit_replace 5 6", "zit_index"],
                              ["zit_next", "zit_next", "zit_add 7 8", "zit_next", "zit_add 3 4", "zit_next"],
-                             ["zit_next", "zit_remove", "zit_next", "zit_remove", "zit_next", "zit_add 1 2"]):
+                             ["zit_next", "zit_remove", "zit_next", "zit_remove", "zit_next", "zit_add 1 2"],
+                             ["zit_next", "zit_add 7 8", "zit_add 3 4", "zit_add 1 2", "zit_next", "zit_remove"],
+                             ["zit_next", "zit_next", "zit_next", "zit_add 7 8", "zit_add 3 4", "zit_remove"]):
                     out.append([c0, "add 1", "add 2", f"{c1} o=1", "add 5 o=1", "add 6 o=1", "add 9 o=1", "zit_new o=0 o2=1"] + prog +
                                ["add_all from=1", "add_all_at from=0 idx=1 o=1", "remove_last", "remove_first o=1", "destroy"])
         if focus == "derived" or allf:
@@ -1164,11 +1201,12 @@ class LinkedGen:
               A + ["mk_copy_shallow to=2", "mk_copy_deep to=3", "destroy"],
               A + ["mk_sub b=0 e=2 to=2", "mk_filter to=3 o=1", "destroy"],
               A + ["to_array", "sort", "add_first 4", "add_at 5 idx=1", "destroy"],
-              A + ["it_new", "it_next", "it_add 4", "it_next", "it_next", "it_next", "it_add 5", "destroy"],
-              A + ["zit_new o=0 o2=1", "zit_next", "zit_add 4 5", "zit_next", "zit_next", "zit_next", "zit_add 6 7", "destroy"],
+              A + ["it_new", "it_next", "it_add 4", "it_next", "it_next", "it_next", "it_add 5", "it_add 6", "remove_last", "add_last 7", "destroy"],
+              A + ["zit_new o=0 o2=1", "zit_next", "zit_add 4 5", "zit_next", "zit_next", "zit_next", "zit_add 6 7", "zit_add 8 9",
+                   "remove_last", "add_last 7", "remove_last o=1", "destroy"],
               ["new", "new o=1", "add 7 o=1", "add 8 o=1", "add_all from=1", "destroy"]]
         if self.dbl:
-            hs.append(A + ["dit_new", "dit_next", "dit_add 4", "dit_next", "dit_next", "dit_next", "dit_add 5", "destroy"])
+            hs.append(A + ["dit_new", "dit_next", "dit_add 4", "dit_next", "dit_next", "dit_next", "dit_add 5", "dit_add 6", "remove_first", "add_first 7", "destroy"])
         return hs
 
 
